@@ -58,6 +58,9 @@ type Scn struct {
 	// the stale-deletion cutoff of merges; Remote "staletomb" then stages a snapshot whose only content is a deletion
 	// marker older than the retention for a key the instance does not have: the merge transaction stays empty
 	Sweeper bool `json:"sweeper,omitempty"`
+	// ReceiveOnly: the instance runs in receive-only mode (never uploads). Only the "local writes are not destroyed"
+	// clause applies; any Store or Delete it issues is reported.
+	ReceiveOnly bool `json:"receive_only,omitempty"`
 }
 
 type Inj struct {
@@ -74,6 +77,9 @@ func (s Scn) ID() string {
 	id := fmt.Sprintf("%s-%s#%d-%s-r%s", m, s.Point, s.Nth, s.Kind, s.Remote)
 	if s.Prewrite {
 		id += "-pre"
+	}
+	if s.ReceiveOnly {
+		id += "-recvonly"
 	}
 	if s.EmptyVal {
 		id += "-empty"
@@ -305,6 +311,7 @@ func RunScn(scn Scn, env *runner.Env, res *runner.Result, which string) {
 		conf.Sweeper = config.Sweeper{Enabled: true, RetentionDays: 1, Interval: time.Hour, FirstInterval: time.Hour, LockDuration: time.Second, ReleaseDuration: time.Second}
 		opt.Conf = &conf
 	}
+	opt.Options.ReceiveOnly = scn.ReceiveOnly
 	a, err := inst.New(env.Dir("loop"), w.b, dbName, "a", opt)
 	if err != nil {
 		res.Verdict, res.Msg = runner.Inconclusive, err.Error()
@@ -350,7 +357,7 @@ func RunScn(scn Scn, env *runner.Env, res *runner.Result, which string) {
 		res.Verdict, res.Msg = runner.Inconclusive, "start-up did not reach quiescence: "+why
 		return
 	}
-	if s0, _ := w.newestOwn(); s0 == nil {
+	if s0, _ := w.newestOwn(); s0 == nil && !scn.ReceiveOnly {
 		res.Violate("no-startup-snapshot", "an instance started with data and an empty bucket is idle without having uploaded a snapshot", w.witness("startup"))
 		return
 	}
@@ -448,6 +455,12 @@ func RunScn(scn Scn, env *runner.Env, res *runner.Result, which string) {
 	res.NonTrivial = true
 	res.Add("points_fired", scn.Point)
 	res.Add("interleavings", interleavingHash(w.s.Events()))
+	if scn.ReceiveOnly {
+		which = "C03"
+		if n := w.b.Count("Store") + w.b.Count("Delete"); n > 0 {
+			res.Violate("receive-only-instance-wrote-to-storage", fmt.Sprintf("a receive-only instance issued %d Store/Delete calls", n), w.witness("receive-only"))
+		}
+	}
 	if which != "C03" && which != "C10" {
 		w.checkC09("first idle state after the commit")
 	}
